@@ -36,7 +36,7 @@ func (Driver) Info() core.Info {
 			"strings are valid UTF-8; resource exhaustion is excluded by the stated caps, not observed",
 			"the registry-completeness check parses the stdlib sources the binary was built from with go/parser and reports function.New variables the registry misses as counters registry:missing:*",
 		},
-		MinNontrivial: 15000,
+		MinNontrivial: 30000,
 		MemLimitKB:    4 << 20,
 		Durable:       true,
 	}
